@@ -48,6 +48,12 @@ def cases(tier, seed):
             yield {"kind": "ciq", "batch": b, "seed": rnd.randrange(10**6)}
         for model in ("exact_rbf", "exact_matern", "svgp"):
             yield {"kind": "testgrad", "model": model, "seed": rnd.randrange(10**6)}
+        # the same under fast predictive variances (cold and warm caches), and for a Matern kernel whose smoothness was
+        # reassigned after construction (`nu` is a public attribute; the no-grad forward takes the hand-written path)
+        for model, warm in itertools.product(("exact_rbf", "exact_matern"), (False, True)):
+            yield {"kind": "testgrad", "model": model, "fast_pred_var": True, "warm": warm, "seed": rnd.randrange(10**6)}
+        for nu0, nu1 in ((2.5, 1.5), (1.5, 2.5), (2.5, 0.5)):
+            yield {"kind": "testgrad", "model": "exact_matern", "nu": [nu0, nu1], "fast_pred_var": rnd.random() < 0.5, "seed": rnd.randrange(10**6)}
 
 
 _ST = {"rec": None}
@@ -508,18 +514,26 @@ def _testgrad(case, ctx, g):
         fam = H.FAMILIES["default"](case["seed"] % 1000)
         if case["model"] == "exact_matern":
             lik = gpytorch.likelihoods.GaussianLikelihood()
-            m = util.GP(fam.X, fam.y, lik, gpytorch.means.ConstantMean(), gpytorch.kernels.ScaleKernel(gpytorch.kernels.MaternKernel(nu=2.5)))
+            nu0, nu1 = case.get("nu", [2.5, 2.5])
+            m = util.GP(fam.X, fam.y, lik, gpytorch.means.ConstantMean(), gpytorch.kernels.ScaleKernel(gpytorch.kernels.MaternKernel(nu=nu0)))
             util.randomize(m, util.gen(case["seed"]), 0.4)
+            m.covar_module.base_kernel.nu = nu1
             m.eval()
         else:
             m = fam.make()
     xs = util.randn(g, 3, H.D)
     wm, wv = util.randn(g, 3), util.randn(g, 3)
 
-    def f(x):
-        o = m(x)
-        return (o.mean * wm).sum() + (o.variance * wv).sum()
+    W2 = util.randn(g, 3, 3)
 
+    def f(x):
+        with gpytorch.settings.fast_pred_var(bool(case.get("fast_pred_var"))):
+            o = m(x)
+            return (o.mean * wm).sum() + (o.variance * wv).sum() + ((o.covariance_matrix * W2).sum() if case.get("fast_pred_var") else 0.0)
+
+    if case.get("warm"):
+        with torch.no_grad():
+            f(util.randn(g, 3, H.D))
     x = xs.clone().requires_grad_(True)
     with torch.autograd.set_detect_anomaly(True):
         (gr,) = torch.autograd.grad(f(x), x)
